@@ -1,7 +1,7 @@
 (* Sim/Run.v — one pass over a trace: shared state, monitor state, alarms, and the
    environment facts that decide which environment-conditional properties apply. *)
 From RecordUpdate Require Import RecordUpdate.
-From LE Require Import Base Ev World Mon.
+From LE Require Import Base Ev World Mon Mon2.
 Open Scope Z_scope.
 
 (* environment facts (codes 9xxx), reported like alarms and interpreted by the driver *)
@@ -20,12 +20,12 @@ Definition env_facts (b : base) (te : Z * ev) : list alarm :=
   | EWDrop _ _ _ _ => [9007]
   | EWClose _ _ => [9009]
   | ECrash _ => [9010]
-  | EEnvMark c => [9000 + c]
+  | EEnvMark c _ => [9000 + c]
   | _ => []
   end.
 
-Record rstate := mkR { r_b : base; r_m : mst }.
-Definition rstate0 := mkR base0 [].
+Record rstate := mkR { r_b : base; r_m : mst; r_q : mst2 }.
+Definition rstate0 := mkR base0 [] mst20.
 
 Definition alarms_of (s : rstate) (te : Z * ev) : list alarm :=
   let b := r_b s in
@@ -33,12 +33,12 @@ Definition alarms_of (s : rstate) (te : Z * ev) : list alarm :=
   let m := r_m s in
   if b_ended b then (match snd te with ECensus n => when (negb (n =? 0)) 904 | EHarnessPanic => [906; 1304] | _ => [] end) ++ env_facts b te else
   mon_C01 b te ++ mon_C05 b te ++ mon_C02 b' te ++ mon_C07 b te ++ mon_C10s b te ++ mon_C13 b te ++
-  mon_C08 b m te ++ mon_C09 b m te ++ mon_C13w b m te ++ mon_C18 b m te ++ mon_C19 b m te ++
+  mon_C08 b m te ++ mon_C09 b m te ++ mon_C13w b m te ++ mon_C18 b m te ++ mon_C19 b m te ++ mon2 b (r_q s) te ++
   env_facts b te.
 
 Definition rstep (s : rstate) (te : Z * ev) : rstate :=
   let b' := bapply (r_b s) te in
-  mkR b' (mapply (r_b s) b' (r_m s) te).
+  mkR b' (mapply (r_b s) b' (r_m s) te) (m2apply (r_b s) b' (r_q s) te).
 
 (* all alarms of a trace, each with the index of the observation that raised it *)
 Fixpoint run_alarms (s : rstate) (tr : trace) (idx : Z) : list (Z * alarm) :=
